@@ -199,7 +199,8 @@ def configs_for(prop, tier):
     # a second contract of the other kind held alongside (mixed fully-paid / margined account)
     add(op="trade", kindA="margined", shapeA="held", kindB="spot", shapeB="held")
     add(op="trade", kindA="spot", shapeA="held", kindB="margined", shapeB="held")
-    add(op="quote", kindA="margined", shapeA="held", kindB="margined", shapeB="held")
+    add(op="quote", kindA="margined", shapeA="long", kindB="margined", shapeB="short")
+    add(op="mtm", kindA="margined", shapeA="short", kindB="margined", shapeB="long")
     # the same operations directly after a quote update (no valuation in between)
     for kind in ("spot", "margined"):
         for shape in ("flat", "long", "short"):
